@@ -48,6 +48,13 @@ func (ee *enumerateError) Error() string {
 	return fmt.Sprintf("files enumerate error: %s: %v", ee.msg, ee.err)
 }
 
+// vanished reports whether err is the stat error of a directory entry that
+// no longer exists.
+func vanished(err error) bool {
+	ee, ok := err.(*enumerateError)
+	return ok && ee.msg == "stat" && os.IsNotExist(ee.err)
+}
+
 // readBlobs implements EnumerateBlobs. It calls itself recursively on subdirectories.
 func (ds *Storage) readBlobs(ctx context.Context, opts readBlobRequest) error {
 	dirFullPath := filepath.Join(opts.dirRoot, opts.pathInto)
@@ -106,6 +113,11 @@ func (ds *Storage) readBlobs(ctx context.Context, opts readBlobRequest) error {
 		isDir := isShardDir(name)
 		if !isDir {
 			fi, err := stat[name].Get()
+			if vanished(err) {
+				// Gone since ReadDirNames: a temp file renamed to its
+				// final name, or a blob removed meanwhile.
+				continue
+			}
 			if err != nil {
 				return err
 			}
